@@ -1,4 +1,4 @@
 SPECIFICATION Spec
-CONSTANTS Depths = {1,2,3,4,5,6,7,8}
+CONSTANTS Depths = {1,2,3,4,5,6,7,8,9}
 INVARIANTS Bijection TriCount
 CHECK_DEADLOCK FALSE
